@@ -543,6 +543,8 @@ class MP4Tags(DictProxy, Tags):
     def __update_tfhd(self, fileobj, atom, delta, offset):
         if atom.offset > offset:
             atom.offset += delta
+        if atom.length < 12:
+            raise MP4MetadataError("truncated atom %r" % atom.name)
         fileobj.seek(atom.offset + 9)
         data = read_full(fileobj, atom.length - 9)
         flags = cdata.uint_be(b"\x00" + data[:3])
